@@ -180,4 +180,25 @@ example :
       ++ List.replicate 40 85 ++ List.replicate 40 170 ++ List.replicate 40 0)).2.getLast? = some 0 := by
   decide +kernel
 
+/-! Hand-over (`silencer_emulator_*_continue_with`): a new emulator object that takes over a running filter under
+the same configuration is the same filter — in particular the remainder counter of a transition in flight
+survives, so the completion theorems above hold across hand-overs — and under a new configuration exactly the
+mode and the value change. -/
+theorem continueWith_same_config (s : Sil) : s.continueWith s.fixedUpdateRate s.value = s := by
+  cases s; rfl
+
+theorem continueWith_keeps (s : Sil) (f : Bool) (v : Nat) :
+    (s.continueWith f v).current = s.current ∧ (s.continueWith f v).currentTarget = s.currentTarget ∧
+    (s.continueWith f v).diffMem = s.diffMem ∧ (s.continueWith f v).stepRemMem = s.stepRemMem ∧
+    (s.continueWith f v).fixedUpdateRate = f ∧ (s.continueWith f v).value = v := by
+  simp [Sil.continueWith]
+
+/-- a transition handed over after `j` updates completes on time: with the hand-over it is the same run -/
+theorem handover_run_invisible (s : Sil) (ts us : List Nat) :
+    ((s.runP ts).1.continueWith (s.runP ts).1.fixedUpdateRate (s.runP ts).1.value).runP us = (s.runP ts).1.runP us ∧
+    ((s.runI ts).1.continueWith (s.runI ts).1.fixedUpdateRate (s.runI ts).1.value).runI us = (s.runI ts).1.runI us := by
+  simp [continueWith_same_config]
+
+example : ((Sil.new false 10 10).runI [128, 128, 128, 128, 128]).1.stepRemMem ≠ 0 := by decide +kernel
+
 end Autd3.Silencer
